@@ -12,6 +12,25 @@ use des_cqueue::{CQueue, EventHandle};
 use std::panic::{catch_unwind, AssertUnwindSafe};
 use std::time::Duration;
 
+thread_local! {
+    /// how often the payload with a given ordinal has been dropped (C15: exactly once)
+    static DROPS: std::cell::RefCell<Vec<u32>> = std::cell::RefCell::new(Vec::new());
+}
+
+/// event payload: carries its ordinal and a few words of data, counts its drops
+#[derive(Debug)]
+struct Tok { id: usize, pad: [u64; 3] }
+impl Tok {
+    fn new(id: usize) -> Tok {
+        DROPS.with(|d| { let mut d = d.borrow_mut(); if d.len() <= id { d.resize(id + 1, 0); } d[id] = 0; });
+        Tok { id, pad: [id as u64 ^ 0xA5A5, !(id as u64), 7] }
+    }
+    fn intact(&self) -> bool { self.pad == [self.id as u64 ^ 0xA5A5, !(self.id as u64), 7] }
+}
+impl Drop for Tok {
+    fn drop(&mut self) { DROPS.with(|d| { let mut d = d.borrow_mut(); if d.len() <= self.id { d.resize(self.id + 1, 0); } d[self.id] += 1; }); }
+}
+
 #[derive(Clone, Copy, Debug, PartialEq)]
 enum Op {
     Add(u128),   // absolute time in ns
@@ -39,14 +58,28 @@ struct Mismatch { step: usize, kind: &'static str, props: &'static str, expected
 fn dur(t: u128) -> Duration { Duration::new((t / 1_000_000_000) as u64, (t % 1_000_000_000) as u32) }
 
 fn run(n: usize, t: u128, script: &[Op]) -> Result<(), Mismatch> {
-    let mut q: CQueue<usize> = CQueue::new(n, dur(t));
+    DROPS.with(|d| d.borrow_mut().clear());
+    let r = run_inner(n, t, script);
+    r
+}
+
+fn check_drops(step: usize, upto: usize) -> Result<(), Mismatch> {
+    let bad = DROPS.with(|d| { let d = d.borrow(); (0..upto.min(d.len())).find(|&i| d[i] != 1).map(|i| (i, d[i])) });
+    if let Some((i, c)) = bad {
+        return Err(Mismatch { step, kind: "payload-drop-count", props: "C15", expected: format!("payload {} dropped exactly once after the queue is gone", i), observed: format!("dropped {} times", c) });
+    }
+    Ok(())
+}
+
+fn run_inner(n: usize, t: u128, script: &[Op]) -> Result<(), Mismatch> {
+    let mut q: CQueue<Tok> = CQueue::new(n, dur(t));
     let mut m = Model::new();
-    let mut handles: Vec<Option<EventHandle<usize>>> = vec![];
+    let mut handles: Vec<Option<EventHandle<Tok>>> = vec![];
     for (step, op) in script.iter().enumerate() {
         match *op {
             Op::Add(time) => {
                 let id = m.next_id;
-                let r = catch_unwind(AssertUnwindSafe(|| q.add(dur(time), id)));
+                let r = catch_unwind(AssertUnwindSafe(|| q.add(dur(time), Tok::new(id))));
                 let should_accept = time >= m.now;
                 match (r, should_accept) {
                     (Ok(h), true) => {
@@ -55,7 +88,7 @@ fn run(n: usize, t: u128, script: &[Op]) -> Result<(), Mismatch> {
                         if time == m.now { m.zero.push((id, time)); } else { m.rest.push((time, id)); }
                         m.next_id += 1;
                     }
-                    (Err(_), false) => { return Ok(()); } // rejected as required; the queue may be poisoned by the unwind: stop the script
+                    (Err(_), false) => { std::mem::forget(q); return Ok(()); } // rejected as required; the queue may be poisoned by the unwind: stop the script
                     (Ok(_), false) => return Err(Mismatch { step, kind: "add-accepted-before-now", props: "C01 C02", expected: format!("add({time}ns) rejected (now = {}ns)", m.now), observed: "accepted".into() }),
                     (Err(_), true) => return Err(Mismatch { step, kind: "add-rejected-at-or-after-now", props: "C02 C10", expected: format!("add({time}ns) accepted (now = {}ns)", m.now), observed: "panic".into() }),
                 }
@@ -71,7 +104,12 @@ fn run(n: usize, t: u128, script: &[Op]) -> Result<(), Mismatch> {
                 };
                 let r = catch_unwind(AssertUnwindSafe(|| q.fetch_next()));
                 match r {
-                    Ok((id, t)) => {
+                    Ok((tok, t)) => {
+                        let id = tok.id;
+                        if !tok.intact() {
+                            return Err(Mismatch { step, kind: "payload-corrupted", props: "C15", expected: format!("payload {} returned bit for bit", id), observed: "payload bytes changed".into() });
+                        }
+                        drop(tok);
                         let t = t.as_nanos();
                         if (id, t) != exp {
                             let (kind, props) = if t != exp.1 { ("fetch-wrong-time", "C01 C02") } else { ("fetch-wrong-tie-order", "C03") };
@@ -112,6 +150,14 @@ fn run(n: usize, t: u128, script: &[Op]) -> Result<(), Mismatch> {
             return Err(Mismatch { step, kind: "time-mismatch", props: "C02 C10", expected: format!("lower bound {}ns", m.now), observed: format!("{}ns", q.time().as_nanos()) });
         }
     }
+    // every second script: drop the queue with events still pending; every payload must then have been dropped exactly once
+    if script.len() % 2 == 1 {
+        let total = m.next_id;
+        if catch_unwind(AssertUnwindSafe(move || drop(q))).is_err() {
+            return Err(Mismatch { step: script.len(), kind: "queue-drop-panicked", props: "C15", expected: "CQueue::drop returns".into(), observed: "panic".into() });
+        }
+        return check_drops(script.len(), total);
+    }
     // drain: everything still pending must come out, in order
     let mut tail: Vec<Op> = vec![];
     for _ in 0..m.len() { tail.push(Op::Fetch); }
@@ -126,7 +172,13 @@ fn run(n: usize, t: u128, script: &[Op]) -> Result<(), Mismatch> {
                 (id, t)
             };
             match catch_unwind(AssertUnwindSafe(|| q.fetch_next())) {
-                Ok((id, t)) => {
+                Ok((tok, t)) => {
+                    let id = tok.id;
+                    let ok = tok.intact();
+                    drop(tok);
+                    if !ok {
+                        return Err(Mismatch { step: script.len() + i, kind: "payload-corrupted", props: "C15", expected: format!("payload {} returned bit for bit", id), observed: "payload bytes changed".into() });
+                    }
                     let t = t.as_nanos();
                     if (id, t) != exp {
                         let (kind, props) = if t != exp.1 { ("drain-wrong-time", "C01 C11") } else { ("drain-wrong-tie-order", "C03") };
@@ -140,7 +192,9 @@ fn run(n: usize, t: u128, script: &[Op]) -> Result<(), Mismatch> {
             return Err(Mismatch { step: script.len() + tail.len(), kind: "len-mismatch", props: "C01", expected: "empty".into(), observed: format!("len {}", q.len()) });
         }
     }
-    Ok(())
+    let total = m.next_id;
+    drop(q);
+    check_drops(script.len() + tail.len(), total)
 }
 
 fn op_json(op: &Op) -> String {
